@@ -22,6 +22,12 @@ class _ReProxy(object):
         self._rec.matches[(p, string)] = m is not None
         return m
 
+    def fullmatch(self, pattern, string, flags=0):
+        m = _re.fullmatch(pattern, string, flags)
+        p = pattern.pattern if hasattr(pattern, 'pattern') else pattern
+        self._rec.fullmatches[(p, string)] = m is not None
+        return m
+
 
 class _RandomProxy(object):
     def __init__(self, rec):
@@ -52,7 +58,8 @@ class _RandomProxy(object):
 
 class Recorder(object):
     def __init__(self):
-        self.matches = {}
+        self.matches = {}          # re.match(pattern, string)
+        self.fullmatches = {}      # re.fullmatch(pattern, string): the check of the examples
         self.groups = {}
         self.samples = []
         self.events = []          # calls on the random module: 0 getstate, 1 seed, 2 sample, 3 setstate
@@ -126,7 +133,10 @@ def model_payload(arg, opts, size_spec, rec):
     wanted = set()
     for l in rec.rex_lists:
         wanted.update(l)
-    mt = [[p, s, b] for (p, s), b in rec.matches.items() if p in wanted]
+    # the check of the examples against the expressions (re.fullmatch since fix aa11733; re.match before)
+    checked = dict(rec.matches)
+    checked.update(rec.fullmatches)
+    mt = [[p, s, b] for (p, s), b in checked.items() if p in wanted]
     gt = [[p, s, g] for (p, s), g in rec.groups.items() if g is not None]
     return [opts_payload(opts, size_spec), items_of(arg), gt, mt, rec.samples]
 
@@ -168,34 +178,36 @@ def check_regex_model(ctx, cases, limit=4000):
     if not ctx.model_ok:
         return
     import re
-    by_pat = {}
-    for (case, arg, opts, size, x, rec) in cases:
-        for (p, s), b in rec.matches.items():
-            by_pat.setdefault(p, {})[s] = bool(b)
-        if x.results is not None:
-            strings = [s for s in (arg.keys() if isinstance(arg, dict) else arg) if s is not None]
-            for p in x.results.rex:
-                for s in strings[:12]:
-                    try:
-                        by_pat.setdefault(p, {}).setdefault(s, bool(re.match(p, s, re.UNICODE | re.DOTALL)))
-                    except re.error:
-                        pass
-    pats = sorted(by_pat)[:limit]
-    outs = ctx.model.call_many(30, [[p, list(by_pat[p])] for p in pats])
     n_in = n_out = n_pairs = bad = 0
     outside = []
-    for p, o in zip(pats, outs):
-        if o == [2] or o == '!stack' or not isinstance(o, list):
-            n_out += 1
-            outside.append(p)
-            continue
-        n_in += 1
-        for s, got in zip(by_pat[p], o):
-            n_pairs += 1
-            if got == 2 or bool(got) != by_pat[p][s]:
-                bad += 1
-                if bad <= 5:
-                    ctx.mismatch('regex-text-model', {'expression': p, 'string': s}, got, by_pat[p][s])
+    for full in (0, 1):
+        by_pat = {}
+        for (case, arg, opts, size, x, rec) in cases:
+            for (p, s), b in (rec.fullmatches if full else rec.matches).items():
+                by_pat.setdefault(p, {})[s] = bool(b)
+            if x.results is not None:
+                strings = [s for s in (arg.keys() if isinstance(arg, dict) else arg) if s is not None]
+                for p in x.results.rex:
+                    for s in strings[:12]:
+                        try:
+                            fn = re.fullmatch if full else re.match
+                            by_pat.setdefault(p, {}).setdefault(s, bool(fn(p, s, re.UNICODE | re.DOTALL)))
+                        except re.error:
+                            pass
+        pats = sorted(by_pat)[:limit]
+        outs = ctx.model.call_many(30, [[p, list(by_pat[p]), bool(full)] for p in pats])
+        for p, o in zip(pats, outs):
+            if o == [2] or o == '!stack' or not isinstance(o, list):
+                n_out += 1
+                outside.append(p)
+                continue
+            n_in += 1
+            for s, got in zip(by_pat[p], o):
+                n_pairs += 1
+                if got == 2 or bool(got) != by_pat[p][s]:
+                    bad += 1
+                    if bad <= 5:
+                        ctx.mismatch('regex-text-model', {'expression': p, 'string': s, 'fullmatch': bool(full)}, got, by_pat[p][s])
     ctx.extra['regex_text_model'] = {'expressions_in_fragment': n_in, 'outside_fragment(extra letters / alternation)': n_out,
                                      'pairs_compared': n_pairs, 'disagreements': bad, 'outside_examples': outside[:8]}
     ctx.cov['evaluations'] += n_pairs
